@@ -156,7 +156,54 @@ static Step gen_op(Rng& r, const Profile& P, int client, int nh, const Plan& pla
   return s;
 }
 
+// Stratified sweep for C12 (enumeration, stated as such in the evidence): every sequence of length <= 4 over the
+// alphabet {INIT a, INIT b, SELECT a, SELECT b, SET, GET, re-INIT a with another solution}, in both precisions.
+static const uint64_t kC12EnumCount = 2 * (7 + 49 + 343 + 2401);
+static Plan gen_plan_c12enum(uint64_t seed, uint64_t run_index) {
+  Rng r(seed);
+  Plan p;
+  p.seed = seed;
+  p.profile = "C12E";
+  static const int amw[] = {2, 4, 4, 3};
+  p.alloc_mode = r.pickw(std::vector<int>(amw, amw + 4));
+  p.alloc_seed = r.next() | 1;
+  uint64_t idx = run_index % kC12EnumCount;
+  Client cl;
+  cl.prec = (int)(idx & 1);
+  idx >>= 1;
+  cl.lang = 0;
+  cl.handles.push_back("a");
+  cl.handles.push_back("b");
+  p.clients.push_back(cl);
+  int len = 1;
+  uint64_t block = 7;
+  while (idx >= block) {
+    idx -= block;
+    block *= 7;
+    ++len;
+  }
+  int s1 = resolve_solution("euler_1d"), s2 = resolve_solution("heateq_2d_steady_const");
+  for (int i = 0; i < len; ++i) {
+    int d = (int)(idx % 7);
+    idx /= 7;
+    Step st;
+    st.client = 0;
+    switch (d) {
+      case 0: st.op = OP_INIT; st.h = 0; st.a = s1; st.s = g_sols[(size_t)s1].name; break;
+      case 1: st.op = OP_INIT; st.h = 1; st.a = s1; st.s = g_sols[(size_t)s1].name; break;
+      case 2: st.op = OP_SELECT; st.h = 0; break;
+      case 3: st.op = OP_SELECT; st.h = 1; break;
+      case 4: st.op = OP_SET; st.a = 0; st.b = 0; st.c = 1 + i; break;
+      case 5: st.op = OP_GET; st.a = 0; break;
+      default: st.op = OP_INIT; st.h = 0; st.a = s2; st.s = g_sols[(size_t)s2].name; break;
+    }
+    p.steps.push_back(st);
+  }
+  return p;
+}
+
 static Plan gen_plan(uint64_t seed, const std::string& profile_name, uint64_t run_index) {
+  if (profile_name == "C12E") return gen_plan_c12enum(seed, run_index);
   const Profile& P = find_profile(profile_name);
   Rng r(seed);
   Plan p;
